@@ -17,7 +17,9 @@ import ACModel.Proofs.Measures
   (`kruskal_invariant_neg`: ranks are reflected, `rank ↦ n + 1 − rank`, and the rank sums add up to
   n(n+1)/2); Pearson's r² is unchanged by every affine map `a·x + b`, `a ≠ 0`
   (`pearson_sq_invariant_affine`), Spearman's ρ² by strictly increasing maps and by negation.
-  χ²-based measures only see the contingency counts, which renaming categories does not change.
+  χ² of the contingency table (hence Cramér's V, Tschuprow's T) is unchanged by renaming the
+  categories (`chi2_invariant_rename`: the names and the order of the table's rows change, not the
+  statistic) and by permuting the rows of the data (`chi2_invariant_perm_rows`).
   The real selectors end to end, row / column permutations, and the target-copy clause are decided
   by the metamorphic runs of `harness/c15.py` (partial); the driver's exact values of these
   measures are compared with the selectors' own values on every C14 / C15 case.
@@ -162,6 +164,25 @@ theorem spearman_sq_invariant_neg (xs ys : List Rat) (h : xs.length = ys.length)
   rw [hr]
   exact pearson_sq_invariant_affine (-1) _ (by decide +kernel) _ _ (by simpa using h)
 
+open Measures MeasureLemmas in
+/-- **χ² (hence Cramér's V and Tschuprow's T) is invariant under renaming the categories of a
+    qualitative feature**: an injective renaming `ρ` changes the names, and with them the order in
+    which `crosstab` lists the categories (`cats'` is any ordering of the renamed categories), but
+    not the statistic. -/
+theorem chi2_invariant_rename (ρ : String → String) (hρ : ∀ a b, ρ a = ρ b → a = b)
+    (xs ys cats cls cats' : List String) (hperm : cats'.Perm (cats.map ρ)) :
+    chi2Table (contingency (xs.map ρ) ys cats' cls) = chi2Table (contingency xs ys cats cls) := by
+  rw [← contingency_rename ρ hρ xs ys cats cls]
+  apply chi2Table_perm
+  unfold contingency
+  exact hperm.map _
+
+open Measures MeasureLemmas in
+/-- **χ² is invariant under permutations of the rows of the data.** -/
+theorem chi2_invariant_perm_rows (xs ys xs' ys' cats cls : List String) (h : (xs.zip ys).Perm (xs'.zip ys')) :
+    chi2Table (contingency xs ys cats cls) = chi2Table (contingency xs' ys' cats cls) := by
+  rw [contingency_perm_rows xs ys xs' ys' h]
+
 /-! ## Non-vacuity -/
 example : avgRank [1, 5, 5, 9] 5 = 5 / 2 := by decide +kernel
 example : avgRank ([1, 5, 5, 9].map (fun x => 2 * x + 1)) (2 * 5 + 1) = 5 / 2 := by decide +kernel
@@ -170,6 +191,9 @@ example : StrictMono (fun x => 2 * x + 1) := affine_strictMono 2 1 (by decide +k
 example : Measures.kruskalOfGroups [[1, 2, 2], [2, 5], [7, 9]] = Measures.kruskalOfGroups [[-1, -2, -2], [-2, -5], [-7, -9]] := by
   decide +kernel
 example : (Measures.kruskalOfGroups [[1, 2, 2], [2, 5], [7, 9]]).isSome = true := by decide +kernel
+example : Measures.chi2Table (Measures.contingency ["a", "b", "a", "c", "b"] ["0", "1", "1", "0", "1"] ["a", "b", "c"] ["0", "1"]) =
+    Measures.chi2Table (Measures.contingency ["z", "y", "z", "x", "y"] ["0", "1", "1", "0", "1"] ["x", "y", "z"] ["0", "1"]) := by
+  decide +kernel
 example : (Measures.pearsonSq [1, 2, 4, 7] [3, 1, 4, 1]).map (·.1) = (Measures.pearsonSq [-1, -2, -4, -7] [3, 1, 4, 1]).map (·.1) := by
   decide +kernel
 
